@@ -844,6 +844,75 @@ fn split_head(head: &[u8]) -> (&[u8], Option<&[u8]>) {
     }
 }
 
+/// A generated input that is never materialised: record k of the FASTA form is ">" + 14-digit k + LF + 15 letters
+/// derived from k + LF (32 bytes); the FASTQ form appends "+" + 14-digit k + LF + 15 quality bytes + LF (64 bytes).
+struct VirtSrc {
+    pos: u64,
+    nrec: u64,
+    fq: bool,
+}
+
+impl VirtSrc {
+    fn rec_len(&self) -> u64 {
+        if self.fq {
+            64
+        } else {
+            32
+        }
+    }
+    fn byte_at(&self, off: u64) -> u8 {
+        let k = off / self.rec_len();
+        let i = (off % self.rec_len()) as usize;
+        let digits = format!("{:014}", k);
+        let part = i / 16;
+        let j = i % 16;
+        match (part, j) {
+            (0, 0) => {
+                if self.fq {
+                    b'@'
+                } else {
+                    b'>'
+                }
+            }
+            (2, 0) => b'+',
+            (0, 15) | (1, 15) | (2, 15) | (3, 15) => b'\n',
+            (0, j) | (2, j) => digits.as_bytes()[j - 1],
+            (1, j) => b"ACGT"[((k as usize).wrapping_mul(7) + j) % 4],
+            (_, j) => b'!' + (((k as usize) + j) % 40) as u8,
+        }
+    }
+    fn total(&self) -> u64 {
+        self.nrec * self.rec_len()
+    }
+}
+
+impl io::Read for VirtSrc {
+    fn read(&mut self, buf: &mut [u8]) -> io::Result<usize> {
+        let left = self.total().saturating_sub(self.pos);
+        let n = (buf.len() as u64).min(left) as usize;
+        for (i, b) in buf[..n].iter_mut().enumerate() {
+            *b = self.byte_at(self.pos + i as u64);
+        }
+        self.pos += n as u64;
+        Ok(n)
+    }
+}
+
+impl io::Seek for VirtSrc {
+    fn seek(&mut self, to: io::SeekFrom) -> io::Result<u64> {
+        let p = match to {
+            io::SeekFrom::Start(p) => p as i128,
+            io::SeekFrom::Current(d) => self.pos as i128 + d as i128,
+            io::SeekFrom::End(d) => self.total() as i128 + d as i128,
+        };
+        if p < 0 {
+            return Err(io::Error::new(io::ErrorKind::InvalidInput, "seek before start"));
+        }
+        self.pos = p as u64;
+        Ok(self.pos)
+    }
+}
+
 fn run_writer(out: &mut dyn Write, t: &[&str]) {
     use fasta::Record as FaRecord;
     use fastq::Record as FqRecord;
@@ -959,6 +1028,67 @@ fn main() {
         let t: Vec<&str> = line.split(' ').collect();
         if t[0] == "wr" {
             run_writer(&mut out, &t);
+        } else if t[0] == "vs" {
+            // vs <fa|fq> <cap> <number of records> <ops>: a VIRTUAL source of fixed-size records generated on the fly
+            // (32 bytes per FASTA record, 64 per FASTQ record), so that byte offsets beyond 2^32 can be visited;
+            // ops: K<line>.<byte> (seek to Position::new), N (next), S (read_record_set: prints the first record and the count)
+            let cap: usize = t[2].parse().unwrap();
+            let nrec: u64 = t[3].parse().unwrap();
+            let fq = t[1] == "fq";
+            let res = guarded(|| {
+                let mut lines: Vec<String> = vec![];
+                macro_rules! drive {
+                    ($m:ident, $src:expr, $ps:expr) => {{
+                        let mut rd = $m::Reader::with_capacity($src, cap);
+                        let mut set = $m::RecordSet::default();
+                        for op in list(t[4]) {
+                            if let Some(r) = op.strip_prefix('K') {
+                                let p: Vec<&str> = r.split('.').collect();
+                                let pos = $m::Position::new(p[0].parse().unwrap(), p[1].parse().unwrap());
+                                lines.push(match rd.seek(&pos) {
+                                    Ok(()) => "K ok".to_string(),
+                                    Err(e) => format!("K err {:?}", e),
+                                });
+                            } else if op == "S" {
+                                let r = rd.read_record_set(&mut set);
+                                let first = (&set).into_iter().next().map(|r| {
+                                    use $m::Record;
+                                    String::from_utf8_lossy(r.head()).to_string()
+                                });
+                                lines.push(match r {
+                                    None => "S none".to_string(),
+                                    Some(Err(e)) => format!("S err {:?}", e),
+                                    Some(Ok(())) => format!("S set {} {}", set.len(), first.unwrap_or_default()),
+                                });
+                            } else {
+                                let line = match rd.next() {
+                                    None => "N none".to_string(),
+                                    Some(Err(e)) => format!("N err {:?}", e),
+                                    Some(Ok(r)) => {
+                                        use $m::Record;
+                                        format!("N rec {} {}", String::from_utf8_lossy(r.head()), String::from_utf8_lossy(&r.seq()[..]))
+                                    }
+                                };
+                                let p = rd.position();
+                                lines.push(format!("{} @{}", line, $ps(p)));
+                            }
+                        }
+                    }};
+                }
+                if fq {
+                    let pos_str = |p: &fastq::Position| format!("{}:{}", p.line(), p.byte());
+                    drive!(fastq, VirtSrc { pos: 0, nrec, fq: true }, pos_str);
+                } else {
+                    let pos_str = |p: Option<&fasta::Position>| p.map(|p| format!("{}:{}", p.line(), p.byte())).unwrap_or_else(|| "-".to_string());
+                    drive!(fasta, VirtSrc { pos: 0, nrec, fq: false }, pos_str);
+                }
+                lines.join("\n")
+            });
+            match res {
+                Outcome::Line(s) => writeln!(out, "{}", s).unwrap(),
+                Outcome::Hang => writeln!(out, "vs hang").unwrap(),
+                _ => writeln!(out, "vs panic").unwrap(),
+            }
         } else if t[0] == "ir" {
             // ir <fa|fq> <cap|-> <hex input> <p|m>: the consuming iterator into_records() to its end (at most 1000
             // items), over a FILE opened with from_path / from_path_with_capacity (p) or over a slice (m)
